@@ -2,6 +2,7 @@
 from analysis import mir, q
 from analysis import errchain as E
 from analysis.mir import norm, callee, callee_def, callee_names, prov
+from . import importers
 
 EXPLANATION = (
     "Static flow / structure rules over Txn::to_double_entry, ImportCmd::run and display::rescale.  Line safety: every "
@@ -13,7 +14,10 @@ EXPLANATION = (
     "Numbers: rescale() asks for max(own scale, configured precision), never less than the value's own scale, and "
     "imported amounts are wrapped unformatted from the importer's Decimal without arithmetic.  Output: ImportCmd::run "
     "prints every imported transaction, in order, through the display context built from the configured precisions "
-    "and propagates every error.  Equality of the re-read tree is not decided (value level)."
+    "and propagates every error.  One transaction per record: the CSV reader is configured only with reviewed "
+    "options (none that drops / merges / rewrites lines), and in every importer each loop iteration that does not "
+    "fail pushes exactly one transaction (tabled exception: a CSV row with an empty date).  Equality of the re-read "
+    "tree is not decided (value level)."
 )
 
 TXN = "okane::import::single_entry::Txn"
@@ -454,3 +458,9 @@ def run(P, chk, tier):
     nothing_dropped(P, chk)
     scale_rule(P, chk)
     output_rule(P, chk)
+    chk.rule(importers.R_ROWS, "each importer turns every statement record into exactly one transaction; reader options cannot drop records")
+    importers.csv_reader(P, chk)
+    importers.record_loop(P, chk, importers.CSV_IMPORT, "CSV record", skip_guards=(("is_empty", True),))
+    importers.record_loop(P, chk, "okane::import::iso_camt053::import", "entry / detail", only_if=(("is_empty", True),),
+                          not_record_loops=("statements",))
+    importers.record_loop(P, chk, "okane::import::viseca::import", "statement entry")
